@@ -244,3 +244,129 @@ def _toggle(st):
     if st[last] == b"h:www|":
         return st[:last] + st[last + 1:]
     return st[:last + 1] + [b"h:www|"] + st[last + 1:]
+
+
+# ---- C18 ------------------------------------------------------------------------------------------------------
+CUT_OBSERVERS = ["? pagesiter", "? counts", "? linksiter 1", "? linksiter 0", "? network 1 1 0", "? network 0 0 1",
+                 "? dfs", "? prefixiter", "? metrics"]
+
+
+def extra_C18(tier, seed, scratch, cfg, out):
+    """every cut of the program-ordered write log of generated histories: rebuild the files, reopen them with
+    the real code, run the observers; compare with the model on the same cut; pages and links of the cut
+    must be reported by the completed history as well"""
+    from . import model
+    from .impl import FULL_LOG
+    from .ref import stems_of
+    hits = []
+    nhist = 6 if tier == "quick" else 60
+    cuts_done = byte_cuts = refused = 0
+    for i in range(nhist):
+        r = random.Random(seed * 7907 + 18000 + i)
+        prof = dict(PROFILES["C18"]); prof["read_rate"] = 0.0
+        if i % 2 == 0:
+            prof["g1"] = 0.2            # arbitrary-byte stems with multi-block lengths
+        im = Impl(scratch)
+        try:
+            ses = Session(im, r, prof, cfg=cfg)
+            ses.run(6 if tier == "quick" else 10)
+            base_lines = list(ses.lines)
+            nlog = len(FULL_LOG)
+            log_kinds = [(k, o, len(d)) for k, o, d in FULL_LOG]
+            final = {q: im.exec(q)[0] for q in ("? pagesiter", "? linksiter 1")}
+            final_pages = set(x.split(":")[0] for x in _items(final["? pagesiter"]))
+            final_links = set(_items(final["? linksiter 1"]))
+            # choose cuts: every block boundary (capped) and byte-granular cuts inside appends
+            ks = list(range(nlog + 1))
+            if len(ks) > (120 if tier == "quick" else 100000):
+                ks = sorted(r.sample(ks, 120))
+            cuts = [(k, 0) for k in ks]
+            for k in r.sample(range(nlog), min(nlog, 25 if tier == "quick" else 400)):
+                kind, off, ln = log_kinds[k]
+                cuts.append((k, r.choice([1, ln // 2, ln - 1])))
+            lines = list(base_lines)
+            results = list(ses.results)
+            for k, j in cuts:
+                a = im.exec("cut %d %d" % (k, j))
+                lines.append("cut %d %d" % (k, j)); results.append(a)
+                cuts_done += 1
+                byte_cuts += 1 if j else 0
+                if a[0] != "ok":
+                    refused += 1
+                    if a[0] != "err traph":
+                        hits.append({"kind": "cut", "lines": base_lines, "cut": [k, j],
+                                     "finding": {"reason": "reopening a truncated history failed with something else than the library's own error",
+                                                 "answer": a[0]}})
+                    continue
+                for q in CUT_OBSERVERS:
+                    ans = im.exec(q)
+                    lines.append(q); results.append(ans)
+                    if ans[0].startswith("err") and not (q == "? metrics" and ans[0] == "err other ZeroDivisionError"):
+                        hits.append({"kind": "cut", "lines": base_lines, "cut": [k, j], "finding": {
+                            "reason": "the reopened index cannot be queried: %s fails" % q, "answer": ans[0]}})
+                    if q == "? pagesiter" and ans[0].startswith("ok"):
+                        extra_pages = set(x.split(":")[0] for x in _items(ans[0])) - final_pages
+                        if extra_pages:
+                            hits.append({"kind": "cut", "lines": base_lines, "cut": [k, j], "finding": {
+                                "reason": "the cut index reports a page the completed history does not", "pages": sorted(extra_pages)[:3]}})
+                    if q == "? linksiter 1" and ans[0].startswith("ok"):
+                        extra_links = set(_items(ans[0])) - final_links
+                        if extra_links:
+                            hits.append({"kind": "cut", "lines": base_lines, "cut": [k, j], "finding": {
+                                "reason": "the cut index reports a link the completed history does not", "links": sorted(extra_links)[:3]}})
+                u = im.exec("uncut"); lines.append("uncut"); results.append(u)
+                if hits:
+                    break
+        finally:
+            im._uncut() if im.t is not None else None
+            im.close()
+        if hits:
+            break
+        # the same cuts through the model
+        try:
+            mres = model.run_lines(lines)
+            mism = corr.compare(lines, results, mres, "file")
+            out.disagreements += len(mism)
+            if mism:
+                m = mism[0]
+                out.extra.setdefault("C18_model_mismatch", []).append(m.to_json())
+                hits.append({"kind": "no-failing-input-found", "lines": lines[: m.idx + 1],
+                             "no_longer_checks": ["correspondence slice of C18 (write log / cut states): model and implementation disagree on '%s' (%s)" % (m.kind(), m.what)],
+                             "disagreement": m.to_json()})
+                break
+        except Exception as e:  # noqa
+            out.notes.append("model driver unavailable for C18 cuts: %r" % e)
+    # one store missing is refused
+    im = Impl(scratch)
+    try:
+        im.exec("init file never [] " + cfg)
+        im.exec("addpage %s 0" % hx(b"a|b|"))
+        folder = im.folder
+        im.close()
+        os.remove(os.path.join(folder, "link_store.dat"))
+        from traph import Traph
+        from traph.traph import TraphException
+        try:
+            Traph(folder=folder, default_webentity_creation_rule=b"(?!)", webentity_creation_rules={}).close()
+            hits.append({"kind": "cut", "lines": ["init file never [] " + cfg], "cut": "link_store.dat missing",
+                         "finding": {"reason": "a folder with one store missing was not refused"}})
+        except TraphException:
+            pass
+        except Exception as e:  # noqa
+            hits.append({"kind": "cut", "lines": ["init file never [] " + cfg], "cut": "link_store.dat missing",
+                         "finding": {"reason": "a folder with one store missing fails with %s instead of the library's own error" % type(e).__name__}})
+    finally:
+        im.close()
+    out.extra["C18"] = {"histories": nhist, "cuts_reopened_with_real_code": cuts_done, "byte_granular_cuts": byte_cuts, "refused": refused}
+    res, seen = [], set()
+    for h in hits:
+        key = (h["kind"], h.get("finding", {}).get("reason"))
+        if key not in seen:
+            seen.add(key); res.append(h)
+    nofail = [h for h in res if h["kind"] == "no-failing-input-found"]
+    return [h for h in res if h["kind"] != "no-failing-input-found"][:2] or nofail[:1]
+
+
+def _items(ans):
+    inner = ans[4:-1] if ans.startswith("ok [") else ""
+    return inner.split(",") if inner else []
